@@ -215,7 +215,7 @@ Definition check_state (tol : Q) (p : vnp) (st : vn) (o : vnop) (k : opcheck) : 
                          end) (op_dones o) (k_out_term k));
     (* returned rewards *)
     all2 (fun r y => close5 (if v_norm_reward st then normalize_reward_s r sr (p_clip_rew p) else r) y) (op_rews o) (k_out_rews k)
-    && (negb (v_norm_reward st) || Qle_bool 0 sr && qclose (1 # 100000000) 0 (r_var (v_ret_rms st) + p_eps p) (sr * sr));
+    && (negb (v_norm_reward st) || sqrt_hint_ok (1 # 100000000) sr (r_var (v_ret_rms st)) (p_eps p));
     (* unnormalize_obs of the returned observation, unnormalize_reward of the returned rewards: the inverse expressions when the
        flag is on, the identity when it is off *)
     match k_unnorm k with
